@@ -209,10 +209,10 @@ type c16case struct {
 	probe bool
 	env   []c16node
 	pre   []int
-	args  []int   // see cfg
-	first []int   // the construct op: [0] or [5 i j]
-	later [][]int // ops after construction
-	early [][]int // cancel ops before construction
+	args  []int       // see cfg
+	first []int       // the construct op: [0] or [5 i j]
+	later [][]int     // ops after construction
+	early [][]int     // cancel ops before construction
 	prek  map[int]int // how a pre-"cancelled" node became done: 0 cancel, 1 expired deadline, 2 WithTimeout(0), 3 cancel with a custom cause
 	hooks []c16hookSpec
 }
@@ -282,7 +282,16 @@ func c16Run(h *hctx, id string, c *c16case, buf *[]byte) {
 			ccancel(errC16Cause)
 			ctx, cancel = cc, func() { ccancel(nil) }
 		default:
-			ctx, cancel = context.WithCancel(parent)
+			// a live cancellable node; two thirds of them also carry a deadline far in the future (earlier or later than
+			// the other nodes'): it never expires during the case, so the node is cancelled only by its cancel function
+			switch (i*7 + len(c.env)*3 + len(c.later) + c.kind) % 3 {
+			case 0:
+				ctx, cancel = context.WithCancel(parent)
+			case 1:
+				ctx, cancel = context.WithDeadline(parent, time.Now().Add(time.Hour+time.Duration((i*37+len(c.later)*11)%50)*time.Minute))
+			default:
+				ctx, cancel = context.WithTimeout(parent, 2*time.Hour-time.Duration((i*53+len(c.later)*17)%70)*time.Minute)
+			}
 		}
 		if n.key != 0 {
 			ctx = context.WithValue(ctx, c16key(n.key), n.val)
